@@ -216,6 +216,8 @@ def run(tier, res, is_known):
         for preset in PRESETS:
             if preset == 'large':
                 continue
+            if tier == 'quick' and preset == 'penny' and sizer_kind != 'long_only':
+                continue
             spec = Spec(sizer_kind, fee, preset, ms)
             bfs(spec, len(ms), res, is_known, label='%s fee=%s preset=%s' % (sizer_kind, '/'.join(fee), preset),
                 recheck=6)
